@@ -116,12 +116,16 @@ def is_part(sub, whole):
     return any(whole[k:k + n] == sub for k in range(len(whole) - n + 1))
 
 
-def render(rng, items, natoms, snapshot, steps, unit="fs"):
-    """returns VCD bytes; unit 'fs' or 'ps' (all times must then be multiples of 1000)"""
+UNITS = ["fs", "ps", "ns", "us", "ms", "s"]
+
+
+def render(rng, items, natoms, snapshot, steps, exp=-15):
+    """returns VCD bytes; exp = timescale exponent -15..0 (1 / 10 / 100 of a unit); all times must be multiples of 10^(exp+15) fs"""
     out = VcdOut(rng)
     out.items(items)
-    div = 1 if unit == "fs" else 1000
-    hdr = ["$date today $end", f"$timescale 1 {unit} $end"] + out.lines + ["$enddefinitions $end"]
+    div = 10 ** (exp + 15)
+    sep = rng.choice(["", " "])
+    hdr = ["$date today $end", f"$timescale {10 ** ((exp + 15) % 3)}{sep}{UNITS[(exp + 15) // 3]} $end"] + out.lines + ["$enddefinitions $end"]
     body = []
     vals = {}
     leaves = out.leaves
